@@ -44,7 +44,7 @@ def run(ctx):
         "append_chain_others_unchanged), WrappedErrors elements are independent (wrapped_elem_independent; CONTRAST "
         "cached_tail_copied_by_value_breaks_independence); Recovery hands the handler one new error caused by the panic value "
         "(recovery_hands_cause, recovery_string); the Log* record (log_record_spec). wrap_nil / wrapTyped_nil / "
-        "wrap_idempotent / error_or_nil / capture_records_creator / copy_keeps_stack / caused_by_structure / "
+        "wrap_idempotent / error_or_nil / newWithCause_cause / recovery_string / recoveryF_logF_are_plain / capture_records_creator / copy_keeps_stack / caused_by_structure / "
         "detail_foreign_or_no_cause / log_record_spec are unfoldings of the transcription (they carry the transcription, "
         "which the correspondence run ties to the code). Correspondence only: heaps after CloneWithPrefixMessage of an "
         "aggregate (outside WF); which frames runtime.Callers reports (input of the trace model, taken by the harness on the "
@@ -68,7 +68,8 @@ def run(ctx):
         "lines; the model is parametric in both",
         "errors.Is / errors.As (ops `is`, `as`), errs.Recovery under a real panic with error / string / no panic / nil handler / "
         "panicking handler (op `recover`) and the ten errs.Log* entry points against a capturing slog handler (op `log`) are "
-        "answered by the model (Model/ErrsWalk.lean); errors.Is on a foreign wrapper around a nil *Error panics inside "
+        "answered by the model (Model/ErrsWalk.lean); op `asf`: errors.As with a target of the dynamic type of any value "
+        "(reflect.New), answered by errorsAs - the value found is compared by identity; errors.Is on a foreign wrapper around a nil *Error panics inside "
         "(*Error).Unwrap - the model predicts that outcome too",
         "pointer identity of foreign errors is modelled by a creation counter; comparability of their dynamic type by their kind",
     ]
